@@ -8,6 +8,15 @@ TRUSTED_BASE = [
 ]
 
 TABLE = {
+    "C14": {
+        "obligations": ["C14_policy", "C14_bound", "C14_at_most_N", "C14_success_within_limit", "C14_first_other_answer",
+                        "C14_exhausted", "C14_terminates", "C14_commit_is_policy", "C14_group_fetch_is_policy",
+                        "C14_relookup", "C14_no_cache"],
+        "what": "Theorems: the three group operations are by definition `retrying N step` started with fuel N+1 at attempt 1 (C14_commit_is_policy, C14_group_fetch_is_policy; the look-up likewise). For every sequence of attempt verdicts and every limit N: the policy equals the explicit specification specRun (C14_policy), makes at most max(1,N) attempts (C14_at_most_N), returns success for a success within the limit, the error of the first non-retryable answer, and the *last* retryable code when the limit is used up; it never diverges by itself (C14_terminates); after 'not coordinator' the cached coordinator is erased so the next attempt looks it up again (C14_relookup, C14_no_cache). Correspondence + judge: all answer scripts of length <= 3 (exhaustively) and random ones up to length 6 over {ok, 14, 16, 15, fatal} x limits 0..5 x three operations x scripts on the operation or on the look-up x coordinator moved between brokers; number and destination of requests and results are judged against the specification.",
+        "rule": "scenario = cluster with >= 2 brokers, retry limit 0..5, zero back-off, optional warm coordinator cache then coordinator moved, an answer script on the operation's API or on coordinator look-ups, one of commit_offsets / fetch_group_offsets / fetch_group_topic_offset, then a follow-up group call; indices < 2790 enumerate all scripts of length <= 3 x limits x operations; non-trivial = a request reached a broker; distinct = distinct (operation, result) sequences",
+        "assumptions": ["retryable sets per operation as the code documents them: look-up {15}; commit and group-offset fetch {14, 16}; any other answer is 'the first other answer' and is returned",
+                        "zero back-off: thread::sleep is not modelled"],
+    },
     "C11": {
         "obligations": ["C11_table_impl", "C11_table_spec", "C11_nonzero_is_error", "C11_produce", "C11_produce_ok", "C11_offsets",
                         "C11_offset_partition", "C11_list_offset_partition", "C11_group_fetch", "C11_commit_scan", "C11_poll",
